@@ -133,6 +133,8 @@ pub struct Interpreter<'a, R: RealNumberInternalTrait> {
     pub env: Rc<Environment<R>>,
     lib_loader: LibraryLoader<'a, R>,
     imported_library: HashSet<LibraryName>,
+    // libraries already instantiated by an import on this interpreter
+    libraries: HashMap<LibraryName, Library<R>>,
     import_end: bool, // indicate program's import declaration part end
     pub program_directory: Option<PathBuf>,
     _marker: PhantomData<R>,
@@ -150,6 +152,7 @@ impl<'a, R: RealNumberInternalTrait> Interpreter<'a, R> {
             env: environment,
             lib_loader: LibraryLoader::default(),
             imported_library: HashSet::new(),
+            libraries: HashMap::new(),
             import_end: false,
             program_directory: None,
             _marker: PhantomData,
@@ -173,11 +176,15 @@ impl<'a, R: RealNumberInternalTrait> Interpreter<'a, R> {
         &self.lib_loader
     }
     pub fn append_lib_loader(&mut self, lib_loader: LibraryLoader<'a, R>) {
+        for name in lib_loader.lib_factories.keys() {
+            self.libraries.remove(name);
+        }
         self.lib_loader
             .lib_factories
             .extend(lib_loader.lib_factories.into_iter());
     }
     pub fn register_library_factory(&mut self, library_factory: LibraryFactory<'a, R>) {
+        self.libraries.remove(library_factory.get_library_name());
         self.lib_loader.register_library_factory(library_factory);
     }
 
@@ -523,6 +530,13 @@ impl<'a, R: RealNumberInternalTrait> Interpreter<'a, R> {
     pub fn eval_import_set(&mut self, import: &ImportSet) -> Result<Vec<(String, Value<R>)>> {
         match &import.data {
             ImportSetBody::Direct(lib_name) => {
+                // every import of a library refers to the instance created by the first
+                if let Some(library) = self.libraries.get(lib_name.deref()) {
+                    return Ok(library
+                        .iter_definitions()
+                        .map(|(name, value)| (name.clone(), value.clone()))
+                        .collect());
+                }
                 if self
                     .imported_library
                     .insert(lib_name.clone().extract_data())
@@ -531,6 +545,8 @@ impl<'a, R: RealNumberInternalTrait> Interpreter<'a, R> {
                     // the library is no longer being imported, whether it loaded or failed
                     self.imported_library.remove(lib_name);
                     let library = library?;
+                    self.libraries
+                        .insert(lib_name.deref().clone(), library.clone());
                     Ok(library
                         .iter_definitions()
                         .map(|(name, value)| (name.clone(), value.clone()))
